@@ -44,8 +44,32 @@ SHORT = {
     'C19-B': ('`NetworkEnvelope.parse`: early return for empty payload skips checksum', 'length 0 and wrong checksum'),
     'C20-A': ('`bcur_decode`: falsy result treated as malformed', 'empty payload'),
     'C20-B': ('`cbor_decode`: width `b - 0x57` for 0x5A', 'payload ≥ 65536 bytes'),
+    'C01-C': ('`S256Point.verify`: `total.x.num == sig.r` ("r is already range-checked")', 'valid tuple with x(R) in [n, p) (built by key recovery)'),
+    'C02-C': ('`sign_schnorr`: class-level nonce cache keyed by (msg, aux) without the secret', 'two keys sign the same message with the same aux in one process'),
+    'C03-C': ('`S256Field.__init__` skips the range check; `parse_xonly` gets its own `x >= p` test', 'SEC string with a coordinate in [p, 2^256) congruent to a curve point'),
+    'C04-C': ('`TxFetcher.fetch`: single cache lookup, parsed tx stored before the id check', 'lying server, then non-fresh fetch of the same id'),
+    'C05-C': ('`TxIn.__init__` keeps `Sequence` objects / truthiness test; legacy sighash passes plain `0`', 'legacy NONE/SINGLE digest with >= 2 inputs'),
+    'C06-C': ('`op_checkmultisig`: empty signature element skipped with `continue`', 'multisig spend with an empty signature slot'),
+    'C07-C': ('`Sequence.__lt__`: plain integer order for comparable sequences', 'CSV operand or input sequence with bits 16-21 / 23-30 set'),
+    'C08-C': ('`HDPrivateKey.child`: module-level memo keyed by (xprv bytes, index)', 'same seed under two SLIP-132 flavours / networks sharing the private version'),
+    'C09-C': ('`PrivateKey.parse` (WIF): compressed flag inferred from the last byte', 'uncompressed WIF whose secret ends in 0x01'),
+    'C10-C': ('`PSBT.sign*`: inputs that already hold m partial signatures are skipped', 'more than m cosigners signing the same PSBT object one after another'),
+    'C11-C': ('describe: derived cosigner keys memoised per (fingerprint, path), xpub left out', 'foreign PSBT carrying the reviewer\'s fingerprints described first, then change redirected to it'),
+    'C12-C': ('`TapBranch.path_hashes`: per-branch memo keyed by the script bytes only', 'same script under two leaf versions, both control blocks from one tree object'),
+    'C13-C': ('`MuSigTapScript.session`: one-slot memo keyed by (r, message) without the merkle root', 'one script object, same nonces and message, two merkle roots'),
+    'C14-C': ('`PBKDF2._pseudorandom`: precomputed HMAC pad states, key hashed when `len >= block_size`', 'sentence of exactly 128 bytes'),
+    'C15-C': ('`ShareSet.__init__`: repeated (group, member) indexes dropped before the consistency checks', 'foreign share at an index already present, threshold still met'),
+    'C16-C': ('`P2WSHSortedMulti`: parent keys cached in supplied order, records sorted afterwards', 'unsorted key records with differing account indexes'),
+    'C17-C': ('`target_to_bits`: integer rewrite with `coefficient > 0x800000`', 'target whose top three digits are exactly 80 00 00'),
+    'C18-C': ('`murmur3`: 32-bit reductions everywhere except the initial seed', 'seed >= 2^32 and item shorter than 4 bytes'),
+    'C19-C': ('`Block.parse_header`: version read as signed int32', 'header version >= 0x80000000'),
+    'C20-C': ('`BCURMulti.parse`: part whose payload text equals the previous part is skipped', 'two neighbouring parts with identical bc32 text'),
 }
 NOTES = {
+    'C03-C': 'missed at first (decode-then-encode still round-trips); contracts `parse_coords#len33/65` (decoded coordinates canonical and on the curve, x >= p refused) added, fails deductively',
+    'C11-C': 'missed at first; history entry `C11.history.*` (foreign PSBT described first, fresh address indexes) added to the describe jobs',
+    'C13-C': 'missed at first; history contract `musig_two_sessions` (one object, two merkle roots) added',
+    'C18-C': 'fixed-length murmur3 contracts now decided in 32-bit mode for seeds up to 2^38; loop-preservation of `murmur3#anylen` fails too',
     'C01-B': 'first run: obligation failed without a real input; generator got x ≥ n tuples',
     'C02-A': 'first run: 28 failed obligations without a real input; generator now constructs keys whose masked secret is ≥ n',
     'C04-B': 'missed at first; `fetch_twice` history harness + contract added',
